@@ -280,8 +280,10 @@ WB = "src/util/wbuf.rs"
 M("X-VARIANT-bool-text", "C16", [(F, '                true => String::from("true"),\n                _ => String::from("false"),', '                true => String::from("1"),\n                _ => String::from("0"),')], ["variant_from_bool_text"])
 M("X-VARIANT-toint-float-first", "C02", [(F, "        match self.int_value {\n            Some(i) => i,\n            None => {", "        match self.int_value.filter(|_| self.float_value.is_none()) {\n            Some(i) => i,\n            None => {")], ["variant_to_int", "coercion_to_int"])
 M("X-VARIANT-int-float-slot", "C15", [(F, "float_value: Some(value as f64),", "float_value: None,")], ["variant_from_int_float_value"])
-M("X-ROOTS-maxdepth-default", "C01", [(Q, "            min_depth: 0,\n            max_depth: 0,\n            archives: false,\n            symlinks: false,\n            gitignore: None,", "            min_depth: 0,\n            max_depth: 1,\n            archives: false,\n            symlinks: false,\n            gitignore: None,")], ["root-defaults_max_depth"])
-M("X-ROOTS-symlinks-default", "C11", [(Q, "            archives: false,\n            symlinks: false,\n            gitignore: None,\n            hgignore: None,\n            dockerignore: None,\n            traversal: Bfs,", "            archives: false,\n            symlinks: true,\n            gitignore: None,\n            hgignore: None,\n            dockerignore: None,\n            traversal: Bfs,")], ["root-defaults_symlinks"])
+M("X-ROOTS-maxdepth-default", "C01", [(Q, "            min_depth: 0,\n            max_depth: 0,\n            archives: false,\n            symlinks: false,\n            gitignore: None,", "            min_depth: 0,\n            max_depth: 1,\n            archives: false,\n            symlinks: false,\n            gitignore: None,")], ["root-defaults_"])
+M("X-ROOTS-options-leak-to-next-root", "C18", [(P, "                                roots.push(Root::new(path, root_options));\n\n                                path = String::from(\"\");\n                                root_options = RootOptions::new();\n", "                                roots.push(Root::new(path, root_options.clone()));\n\n                                path = String::from(\"\");\n")], ["root-defaults_parse_roots"])
+M("X-ROOTS-V-push-helper", "C18", [(P, "                                roots.push(Root::new(path, root_options));\n\n                                path = String::from(\"\");\n                                root_options = RootOptions::new();\n", "                                let finished = Root::new(std::mem::take(&mut path), std::mem::replace(&mut root_options, RootOptions::new()));\n                                roots.push(finished);\n")], kind="variant")
+M("X-ROOTS-symlinks-default", "C11", [(Q, "            archives: false,\n            symlinks: false,\n            gitignore: None,\n            hgignore: None,\n            dockerignore: None,\n            traversal: Bfs,", "            archives: false,\n            symlinks: true,\n            gitignore: None,\n            hgignore: None,\n            dockerignore: None,\n            traversal: Bfs,")], ["root-defaults_"])
 M("X-BUFFER-and", "C06", [(S, "self.has_ordering() || self.has_aggregate_column()", "self.has_ordering() && self.has_aggregate_column()")], ["buffering_is_buffered"])
 M("X-BUFFER-args-not-visited", "C07", [("src/expr.rs", """        if let Some(ref args) = self.args {
             for arg in args {
